@@ -407,6 +407,12 @@ AEM_SPEC = Contract(
     requires=[], ensures={}, raises=None, modifies=[], pure=True, result_type="glist",
     props=[],
 )
+AM_SPEC = Contract(
+    target="lightworks/sdk/circuit/circuit_utils.py:add_modes_to_circuit_spec",
+    types={"circuit_spec": "glist", "mode": "int"},
+    requires=[], ensures={}, raises=None, modifies=[], pure=True, result_type="glist",
+    props=[],
+)
 AEM = Contract(
     target=f"{CIRC}:Circuit._add_empty_mode",
     types={"self": CIRCUIT, "circuit_spec": "glist", "mode": "int"},
@@ -432,7 +438,7 @@ AEM = Contract(
     props=["C02"],
 )
 AEM.enum = enum_aem
-CONTRACTS += [AEM_SPEC, AEM]
+CONTRACTS += [AEM_SPEC, AEM, AM_SPEC]
 
 CONTRACTS[0].enum = enum_map_mode
 
